@@ -222,13 +222,10 @@ impl Universal2DBox {
             clipping.rotate_mut(0.0);
         }
 
-        if self.get_cached_vertices().is_none() {
-            self.gen_vertices();
-        }
-
-        if clipping.get_cached_vertices().is_none() {
-            clipping.gen_vertices();
-        }
+        // the boxes are owned here: their vertices are always regenerated, because a cache filled
+        // by an earlier `gen_vertices` call is stale when the public fields changed afterwards
+        self.gen_vertices();
+        clipping.gen_vertices();
 
         sutherland_hodgman_clip(
             self.get_cached_vertices().as_ref().unwrap(),
